@@ -59,7 +59,7 @@ structure Row where
   fw : Nat
   loc : Nat         -- 0 path 1 query 2 header 3 cookie
   kind : Nat        -- 0 styled 1 json 2 pass-through
-  ty : Nat          -- 0 str 1 int32 2 bool 3 date 4 uuid 5 int array 6 object
+  ty : Nat          -- 0 str 1 int32 2 bool 3 date 4 uuid 5 int array 6 object 7 a narrower integer (uint16, int8)
   required : Bool
   stimulus : Nat
   errh : Bool       -- a recording error handler was installed
